@@ -6,7 +6,9 @@ from __future__ import annotations
 import re
 from typing import Optional
 
-_ITEM = re.compile(r"^([-ox~<>])( +)(P[0-9](?= |$))?( *)(.*)$", re.S)
+# a priority is the word RIGHT after the kind (exactly one blank in between): the grammar
+# reads 'o  P1 x' as an open todo whose body starts with the word P1
+_ITEM = re.compile(r"^([-ox~<>])()(?: (P[0-9])(?= |$))?( *)(.*)$", re.S)
 _LONG = re.compile(r"^\d{4}-\d{2}-\d{2}$")
 _SHORT = re.compile(r"^\d{6}$")
 ZID_RE = re.compile(r"^\d{6}#[0-9A-HJ-NPRT-Za-fhkmnor-xz]{2,3}$")
